@@ -136,6 +136,9 @@ type Case struct {
 	// InitUnplan: a stop of a unit that came as initial stops in an order other than that of its stops' indices; the
 	// history un-plans that unit first
 	InitUnplan []int `json:"init_unplan,omitempty"`
+	// FixedMid: a fixed initial stop F and two stops A, B: the histuc history plans A behind F, B in front of F and then
+	// un-plans the vehicle with the resulting route forbidden
+	FixedMid []int `json:"fixed_mid,omitempty"`
 }
 
 type CSolve struct {
@@ -172,6 +175,7 @@ type Profile struct {
 	SoftCap                                                                         bool // capacities as objective terms (constraint off)
 	ForceDurGroups                                                                  bool // a duration group with a long duration whose members wait for a late window
 	InitialUnordered                                                                bool // an unordered multi-stop unit as initial stops, not in index order, interleaved
+	FixedMiddle                                                                     bool // a fixed initial stop that ends up between two removable stops (see Case.FixedMid)
 }
 
 func fullProfile(maxStops, maxVeh int) Profile {
@@ -484,10 +488,19 @@ func genCase(rng *rand.Rand, p Profile) *Case {
 	if on(p.Alternates, 4) {
 		c.feature("alternates")
 		nalt = 1 + rng.Intn(3)
+		if rng.Intn(3) != 0 && nalt < 2 {
+			nalt = 2 // a vehicle with several alternates: at most one of them may be used
+		}
 		for k := 0; k < nalt; k++ {
 			a := CStop{ID: fmt.Sprintf("alt%d", k), Duration: 60 * rng.Intn(4), Penalty: ip(1000 * (1 + rng.Intn(20)))}
 			if rng.Intn(3) == 0 {
 				a.Custom = map[string]any{"alt": k}
+			}
+			if useWin && rng.Intn(2) == 0 {
+				// alternates with a window of their own (a vehicle may have to wait there)
+				t := baseTime + int64(rng.Intn(150))*60
+				a.Windows = [][2]int64{{t, t + int64(10+rng.Intn(120))*60}}
+				c.feature("alternates-with-window")
 			}
 			if useCap && rng.Intn(2) == 0 {
 				// alternates that load or unload something (one model stop per vehicle that lists the alternate: each of the
@@ -586,6 +599,9 @@ func genCase(rng *rand.Rand, p Profile) *Case {
 		}
 		if nalt > 0 && rng.Intn(3) != 0 {
 			k := 1 + rng.Intn(nalt)
+			if k < 2 && nalt >= 2 && rng.Intn(2) == 0 {
+				k = 2
+			}
 			ve.Alternates = rng.Perm(nalt)[:k]
 			sort.Ints(ve.Alternates)
 		}
@@ -793,7 +809,23 @@ func genCase(rng *rand.Rand, p Profile) *Case {
 	}
 	// initial stops: a feasible-looking prefix assignment that respects units (unit members together,
 	// in precedence order); sometimes fixed
-	if p.InitialUnordered {
+	if p.FixedMiddle {
+		// one fixed initial stop on the first vehicle; the history puts a stop behind it and one in front of it and then
+		// asks for a vehicle-level un-plan that is rejected: the two must come back on BOTH sides of the stop that stayed
+		units := c.unitsOfStops()
+		var singles []int
+		for _, u := range units {
+			if len(u) == 1 && !c.inGroup(u) {
+				singles = append(singles, u[0])
+			}
+		}
+		if len(singles) >= 3 {
+			c.feature("initial")
+			c.feature("fixed")
+			c.Vehicles[0].Initial = append(c.Vehicles[0].Initial, CInitial{Stop: singles[0], Fixed: true})
+			c.FixedMid = singles[:3]
+		}
+	} else if p.InitialUnordered {
 		// a multi-stop unit whose precedence leaves its order open comes as initial stops in an allowed order that is NOT the
 		// order of its stops' indices, with a foreign stop between its stops (B X A C for A, B before C); the history
 		// un-plans it first (see hist.go)
